@@ -697,6 +697,8 @@ def replay(case):
         name = case["generate"]
         run_generate(part, name, pats[name][0], pats[name][1], case["max_steps"], 4, 4)
         part.violations = [v for v in part.violations if v.case.get("tape") == case.get("tape")] or part.violations
+    elif case.get("prng") == "real":
+        run_real_prng(part)
     elif "prng" in case:
         run_prng(part, case["D"])
         part.violations = [v for v in part.violations if all(v.case.get(k) == case.get(k) for k in case)]
